@@ -1,6 +1,7 @@
 /* harness `reconpar` (MPI): the parallel paths of ref_recon.c on an explicitly distributed mesh.
  *
- * Only rank 0 reads the op lines (stdin); every op line is broadcast.  One op line carries the GLOBAL mesh data
+ * Only rank 0 reads the op lines (stdin, or the file named by `--ops <file>`: mpiexec's stdin forwarding is unreliable
+ * for large inputs); every op line is broadcast.  One op line carries the GLOBAL mesh data
  * (coordinates and field per global vertex, owner of every global vertex) and, per rank, what that rank stores:
  *
  *   <op> np twod nn tag <3*nn xyz> <ns field> <nn part> | <rank 0> | <rank 1> | ...
@@ -318,10 +319,15 @@ static int op_cloud1(REF_GRID ref_grid, REF_DBL *scalar, int nl) {
 
 int main(int argc, char *argv[]) {
   int fd;
+  FILE *in = stdin;
   MPI_Init(&argc, &argv);
   if (REF_SUCCESS != ref_mpi_create(&ref_mpi)) return 3;
   me = ref_mpi_rank(ref_mpi);
   np = ref_mpi_n(ref_mpi);
+  if (argc >= 3 && 0 == strcmp(argv[1], "--ops") && 0 == me) {
+    in = fopen(argv[2], "r");
+    if (!in) return 4;
+  }
   fd = dup(1);
   out = fdopen(fd, "w");
   if (!freopen("/dev/null", "w", stdout)) return 3;
@@ -334,7 +340,7 @@ int main(int argc, char *argv[]) {
     if (0 == me) {
       for (;;) {
         char *p;
-        if (!fgets(h_line, sizeof(h_line), stdin)) { len = -1; break; }
+        if (!fgets(h_line, sizeof(h_line), in)) { len = -1; break; }
         p = h_line;
         while (*p == ' ' || *p == '\t') p++;
         if (*p == '#' || *p == '\n' || *p == '\r' || *p == 0) continue;
